@@ -50,6 +50,43 @@ Theorem C12_packet_streams_end : forall N fill_ok write_ok reqs cap n,
              panicked n' = false.
 Proof. exact pipeline_errors_end. Qed.
 
+(* the same at full strength: the continuation in which the call comes back moves ONLY the two error
+   multiplexers, the closer of the merged error stream and the error drain.  Every other goroutine --
+   the request source, the N generator workers, the N packet multiplexers, their closer, the SENDER and
+   the receiver -- is in n' exactly where the cancellation found it in n: the scan call does not depend
+   on the sender making one more step (it may be asleep in the rate limiter waiting for a slot that is
+   30 s away, or inside a device write that blocks), nor on the sender's done ever being closed. *)
+Theorem C12_packet_call_returns_sender_frozen : forall N fill_ok write_ok reqs cap n,
+  reachable (Pipeline.beh N fill_ok write_ok) (Pipeline.init N cap reqs) n -> cancelled n = true ->
+  exists n', reachable (Pipeline.beh N fill_ok write_ok) n n' /\
+             procs n' !! PipelineCancel.p_drain N = Some (Pipeline.End Pipeline.RDrain) /\
+             (exists ch, chans n' !! c_eout N = Some ch /\ cclosed ch = true) /\
+             panicked n' = false /\
+             (forall j, j <> p_em N 0 -> j <> p_em N 1 -> j <> PipelineCancel.p_ecloser N -> j <> PipelineCancel.p_drain N ->
+                        procs n' !! j = procs n !! j).
+Proof. exact pipeline_errors_end_frozen. Qed.
+
+(* in particular the sender (goroutine 2N+2 of the layout: source, N workers, N multiplexers, closer, sender, ...) *)
+Definition p_sender (N : nat) : nat := 2 * N + 2.
+Theorem C12_sender_not_waited_for : forall N fill_ok write_ok reqs cap n,
+  reachable (Pipeline.beh N fill_ok write_ok) (Pipeline.init N cap reqs) n -> cancelled n = true ->
+  exists n', reachable (Pipeline.beh N fill_ok write_ok) n n' /\
+             procs n' !! PipelineCancel.p_drain N = Some (Pipeline.End Pipeline.RDrain) /\
+             procs n' !! p_sender N = procs n !! p_sender N /\ panicked n' = false.
+Proof.
+  intros N f w reqs cap n Hr Hc.
+  destruct (pipeline_errors_end_frozen N f w reqs cap n Hr Hc) as (n' & H1 & H2 & _ & H4 & H5).
+  exists n'. split; [exact H1|]. split; [exact H2|]. split; [|exact H4].
+  apply H5; unfold p_sender, p_em, PipelineCancel.p_ecloser, PipelineCancel.p_drain; lia.
+Qed.
+Example C12_sender_is_the_sender : forall N, Pipeline.layout N !! p_sender N = Some Pipeline.RSender.
+Proof.
+  intros N. unfold p_sender, Pipeline.layout. rewrite lookup_app_r by (simpl; lia).
+  rewrite lookup_app_r by (simpl; rewrite fmap_length, seq_length; lia).
+  rewrite lookup_app_r by (simpl; rewrite !fmap_length, !seq_length; lia).
+  cbn [length app]. rewrite !fmap_length, !seq_length. replace (2 * N + 2 - 1 - N - N) with 1 by lia. reflexivity.
+Qed.
+
 Theorem C12_shape : PipelineShape.shape_ok = true /\ AppEngineShape.shape_ok = true.
 Proof. split; vm_compute; reflexivity. Qed.
 
@@ -74,4 +111,6 @@ Print Assumptions C12_closed_is_dead_packet.
 Print Assumptions C12_closed_is_dead_app.
 Print Assumptions C12_app_call_can_return.
 Print Assumptions C12_packet_streams_end.
+Print Assumptions C12_packet_call_returns_sender_frozen.
+Print Assumptions C12_sender_not_waited_for.
 Print Assumptions C12_shape.
